@@ -348,3 +348,175 @@ def install_dfs(reg):
         loops={0: LoopContract("while len(stack) > 0", inv0, havoc_heap={"sd": ALLF}, local_types={"successors": OL}),
                1: LoopContract("while len(successors) > 0 and successors[-1] in seen", inv1, havoc_heap={}, lemmas=tr)},
     ))
+
+
+# ====================================================================== expand_minimal_spaces (C03, C05, C04, C15)
+def install_minimal(reg):
+    """expand_minimal_spaces against its body.  Proved: the diagram invariant and monotone extension are kept on every exit; `.remove`
+    never fails; True is returned only when every minimal trap space inside the start node is the space of an expanded, successor-free
+    node; False only at the size limit with a stub; make_skip_node is only applied to stubs that are not minimal trap spaces themselves.
+    NOT proved: that the final completeness assertion never fires (AssertionError is a declared possible outcome; ruling it out needs
+    the descent lemma 'a minimal trap space inside an expanded node lies inside one of its successors', not mechanised)."""
+    ST, SE = T.StackT, T.StackEntry
+    OL = TOpt(LI)
+    LS = M.LS
+    D = M.TDict(TInt, TInt)
+    EMPTYS = z3.K(Name, z3.IntVal(-1))
+    MemS, AX_MEMS = T.mem_theory(LS, "space")
+    DistinctS = z3.Function("DistinctS", LS.sort(), B)     # no element occurs twice (opaque; introduced by def.Distinct, consumed by list.remove)
+    k_, k2_ = z3.Int("k!m"), z3.Int("k!m2")
+    sv = z3.Const("S!m", T.SpaceS)
+    l, e, ss, pq = z3.Const("l!m", LS.sort()), z3.Const("e!m", T.SpaceS), z3.Const("ss!m", T.SrcSet), z3.Const("p!m", T.PNS)
+
+    def remove_facts(eng, st, ty, old, new, xv, node):
+        if ty == LS:
+            eng.oblige(st, f"remove_present@{node.lineno}", MemS(old, xv), node.lineno, kind="safety")
+            yq = z3.Const(fresh_name("y"), T.SpaceS)
+            st.assume(z3.ForAll([yq], z3.Implies(yq != xv, MemS(new, yq) == MemS(old, yq))))
+            st.assume(z3.Implies(DistinctS(old), z3.And(z3.Not(MemS(new, xv)), DistinctS(new))))
+            return True
+        return None
+    reg.add_hook("list_remove_facts", remove_facts)
+
+    def N(v):
+        return S.net(v)
+
+    def start(c):
+        arg = c.old.node_id if c.old is not None else c.node_id
+        return z3.If(OI.is_none(arg), 0, OI.val(arg))
+
+    def R(c):
+        o = c.old.sd if c.old is not None else c.sd
+        return o.space[start(c)]
+
+    def common_sd(c):
+        v, o = c.sd, c.old.sd
+        return [("inv." + nm, g) for nm, g in S.inv(v)] + [("extends_entry_diagram", S.ext(v, o)),
+                                                            ("config_kept", v.cfg_max_motifs_per_node == o.cfg_max_motifs_per_node)]
+
+    def has(v, sp):
+        return D.dom(v.index)[T.SKey(N(v), sp)]
+
+    def idof(v, sp):
+        return D.vals(v.index)[T.SKey(N(v), sp)]
+
+    def finished(v, seen, stack, n):
+        return z3.And(seen[n], z3.Not(T.OnStack(stack, n)), S.valid(v, n), v.expanded[n], v.succsig[n] == S.nosucc)
+
+    def found(c, v, seen, stack, am, mt):
+        """J: every minimal trap space that is no longer pending is the space of a finished (expanded, successor-free) node"""
+        return z3.ForAll([k_], z3.Implies(z3.And(0 <= k_, k_ < LS.len(am), z3.Not(MemS(mt, LS.at(am)[k_]))), z3.And(
+            has(v, LS.at(am)[k_]), finished(v, seen, stack, idof(v, LS.at(am)[k_])), v.space[idof(v, LS.at(am)[k_])] == LS.at(am)[k_])))
+
+    def entry_ok(v, seen, ent):
+        nd, rest = SE.get(ent, 0), SE.get(ent, 1)
+        return z3.And(seen[nd], S.valid(v, nd),
+                      z3.Implies(z3.Not(OL.is_none(rest)), z3.And(
+                          v.expanded[nd], LI.len(OL.val(rest)) >= 0,
+                          z3.ForAll([b], z3.Implies(z3.And(0 <= b, b < LI.len(OL.val(rest))),
+                                                    z3.And(S.valid(v, LI.at(OL.val(rest))[b]), v.edge[nd][LI.at(OL.val(rest))[b]]))))))
+
+    def enum_facts(c):
+        """what the enumeration lemma gives about all_minimal_traps (kept as an invariant because the diagram view changes around it)"""
+        am = c.all_minimal_traps
+        Nn = N(c.old.sd)
+        return z3.And(T.IsEnum(am, T.MinTrapSet(Nn, R(c))), S.min_trap_facts(Nn, R(c), am), DistinctS(am), LS.len(am) >= 0)
+
+    def shared(c, stack):
+        v, seen, am, mt = c.sd, c.seen, c.all_minimal_traps, c.minimal_traps
+        return common_sd(c) + [
+            ("start_seen", seen[start(c)]),
+            ("seen_valid_inside_start", z3.ForAll([x], z3.Implies(seen[x], z3.And(S.valid(v, x), T.subspace(v.space[x], R(c)))))),
+            ("stack_entries", z3.And(ST.len(stack) >= 0, z3.ForAll([a], z3.Implies(z3.And(0 <= a, a < ST.len(stack)), entry_ok(v, seen, ST.at(stack)[a]))))),
+            ("stack_nodes_distinct", z3.ForAll([a, b], z3.Implies(z3.And(0 <= a, a < b, b < ST.len(stack)),
+                                                                  SE.get(ST.at(stack)[a], 0) != SE.get(ST.at(stack)[b], 0)))),
+            ("pending_traps_are_enumerated", z3.And(DistinctS(mt), LS.len(mt) >= 0, z3.ForAll([sv], z3.Implies(MemS(mt, sv), MemS(am, sv))))),
+            ("found_traps_have_finished_nodes", found(c, v, seen, stack, am, mt)),
+        ]
+
+    def inv0(c):
+        return shared(c, c.stack)
+
+    def inv1(c):
+        v, seen, stack, node, succ, am, mt = c.sd, c.seen, c.stack, c.node, c.successors, c.all_minimal_traps, c.minimal_traps
+        return shared(c, stack) + [
+            ("node_pending", z3.And(seen[node], S.valid(v, node), v.expanded[node], z3.Not(T.OnStack(stack, node)), LI.len(succ) >= 0,
+                                    c.node_space == v.space[node],
+                                    z3.ForAll([a], z3.Implies(z3.And(0 <= a, a < LI.len(succ)),
+                                                              z3.And(S.valid(v, LI.at(succ)[a]), v.edge[node][LI.at(succ)[a]]))))),
+            ("node_trap_still_pending", z3.ForAll([k_], z3.Implies(z3.And(0 <= k_, k_ < LS.len(am), LS.at(am)[k_] == v.space[node]),
+                                                                    MemS(mt, LS.at(am)[k_])))),
+        ]
+
+    def post(c):
+        v, r, am = c.sd, c.result, c.local("all_minimal_traps")
+        return common_sd(c) + [
+            ("enumeration_of_the_minimal_trap_spaces_inside_the_start_node", z3.Implies(r, T.IsEnum(am, T.MinTrapSet(N(c.old.sd), R(c))))),
+            ("true_means_every_minimal_trap_space_is_an_expanded_leaf", z3.Implies(r, z3.ForAll([k_], z3.Implies(
+                z3.And(0 <= k_, k_ < LS.len(am)),
+                z3.And(has(v, LS.at(am)[k_]), v.expanded[idof(v, LS.at(am)[k_])], v.succsig[idof(v, LS.at(am)[k_])] == S.nosucc,
+                       v.space[idof(v, LS.at(am)[k_])] == LS.at(am)[k_]))))),
+            ("false_only_at_the_size_limit_with_a_stub", z3.Implies(z3.Not(r), z3.And(
+                z3.Not(OI.is_none(c.size_limit)), v.K >= OI.val(c.size_limit), z3.Exists([x], z3.And(S.valid(v, x), z3.Not(v.expanded[x])))))),
+        ]
+
+    def lem_min(c):
+        """L4+L5.min_traps_restricted (with the node space also passed as ensure_subspace) and L3.min_trap_facts for the start node"""
+        o = c.old.sd if c.old is not None else c.sd
+        Nn, Sp = N(o), R(c)
+        return z3.ForAll([l, e, ss, pq], z3.Implies(
+            z3.And(T.IsEnum(l, T.TrapSol(pq, 0, False, e, T.no_avoid, ss)), z3.Or(e == EMPTYS, e == Sp),
+                   z3.Or(pq == T.RestrictPN(o.pn, Sp), z3.And(pq == T.EmptyPN, T.card(Sp) == T.nvars(Nn))), T.Encodes(o.pn, Nn, EMPTYS)),
+            z3.And(T.IsEnum(T.map_union_l(Sp, l), T.MinTrapSet(Nn, Sp)), S.min_trap_facts(Nn, Sp, T.map_union_l(Sp, l)),
+                   DistinctS(T.map_union_l(Sp, l)),
+                   # def.Mem (introduction) for the mapped list: its k-th element is a member (stated here because the mapped list is a
+                   # lambda term whose element terms are beta-reduced before any pattern could match them)
+                   z3.ForAll([k_], z3.Implies(z3.And(0 <= k_, k_ < LS.len(l)), MemS(T.map_union_l(Sp, l), LS.at(T.map_union_l(Sp, l))[k_]))))),
+            patterns=[T.IsEnum(l, T.TrapSol(pq, 0, False, e, T.no_avoid, ss))])
+
+    def lem_inside(c):
+        """L3: inside the start space R, for every Perc-closed trap space S below R: the enumeration restricted to S enumerates the minimal
+        trap spaces of S (EnumInside + facts), and S itself is enumerated iff it is a minimal trap space"""
+        Nn, am = N(c.sd), c.all_minimal_traps
+        return z3.Implies(T.IsEnum(am, T.MinTrapSet(Nn, R(c))), z3.ForAll([sv], z3.Implies(
+            z3.And(T.IsTrap(Nn, sv), T.Perc(Nn, sv) == sv, T.wf_space(sv), T.subspace(sv, R(c))),
+            z3.And(S.EnumInside(Nn, am, sv), S.enum_inside_facts(Nn, am, sv),
+                   z3.Implies(T.MinTrapSet(Nn, sv)[sv], z3.Exists([k_], z3.And(0 <= k_, k_ < LS.len(am), LS.at(am)[k_] == sv))))),
+            patterns=[T.IsTrap(Nn, sv)]))
+
+    def lem_leaf(c):
+        """L3: an expanded node without successors is a minimal trap space (normal node: no maximal trap space inside; a skip node always
+        has a successor because every trap space contains a minimal one)"""
+        Nn = N(c.sd)
+        rq = z3.Bool("r!lf")
+        return z3.ForAll([sv], z3.And(
+            z3.Implies(z3.And(T.IsTrap(Nn, sv), T.Perc(Nn, sv) == sv, z3.Or(S.NormSig(Nn, sv, True) == S.nosucc, S.NormSig(Nn, sv, False) == S.nosucc)),
+                       T.MinTrapSet(Nn, sv)[sv]),
+            z3.Implies(T.IsTrap(Nn, sv), z3.Not(S.SkipOK(Nn, sv, S.nosucc)))), patterns=[T.IsTrap(Nn, sv)])
+
+    names_common = ["inv." + n for n in inv_names()] + ["extends_entry_diagram", "config_kept"]
+    pick = lambda fn, nm: (lambda c: dict(fn(c))[nm])
+    tr = [("S.ext_transitive", lambda c: S.ext_trans(c.sd, c.head(0).sd, c.old.sd))]
+    lem_all = [("L3.min_traps_inside(EnumInside)", lem_inside), ("L3.leaf_is_minimal", lem_leaf)]
+    reg.add(Contract(
+        "biobalm._sd_algorithms.expand_minimal_spaces.expand_minimal_spaces",
+        params=[("sd", SD), ("node_id", OI), ("size_limit", OI), ("skip_remaining", TBool)],
+        defaults={"node_id": None, "size_limit": None, "skip_remaining": False}, result_type=TBool,
+        properties=("C03", "C05", "C04", "C15"),
+        requires=[lambda c: S.inv_all(c.sd), lambda c: c.sd.cfg_max_motifs_per_node >= 0,
+                  lambda c: z3.Implies(z3.Not(OI.is_none(c.node_id)), S.valid(c.sd, OI.val(c.node_id)))],
+        modifies={"sd": ALLF}, may_raise={"RuntimeError": {"modifies": {"sd": ALLF}}, "AssertionError": {"modifies": {"sd": ALLF}}},
+        ensures=[(nm, pick(post, nm)) for nm in names_common + ["enumeration_of_the_minimal_trap_spaces_inside_the_start_node",
+                                                               "true_means_every_minimal_trap_space_is_an_expanded_leaf",
+                                                               "false_only_at_the_size_limit_with_a_stub"]],
+        raises={"RuntimeError": [(nm, pick(common_sd, nm)) for nm in names_common],
+                "AssertionError": [(nm, pick(common_sd, nm)) for nm in names_common]},
+        axioms=AX_MEMS,
+        lemmas=[("L4+L5.min_traps_restricted+L3.min_trap_facts", lem_min)],
+        local_types={"seen": SI, "stack": ST, "successors": LI, "minimal_traps": LS, "all_minimal_traps": LS, "node": TInt, "node_id": TInt,
+                     "s": TInt, "skipped": TInt, "node_space": TSpace},
+        loops={0: LoopContract("while len(stack) > 0", inv0, havoc_heap={"sd": ALLF}, local_types={"successors": OL}, lemmas=lem_all),
+               1: LoopContract("while len(successors) > 0", inv1, havoc_heap={"sd": ALLF}, lemmas=tr + lem_all)},
+        raising_asserts=["len(minimal_traps) == 0"],
+        note="AssertionError (the internal completeness check at the end) is a declared possible outcome, not proved impossible",
+    ))
